@@ -170,13 +170,15 @@ func (o *opClient) Deploy(ctx context.Context, req *workerpb.DeployOperatorReque
 		cks = append(cks, opCheckpoint(ck))
 	}
 	return o.g.call(&Call{Point: POpDeploy, From: o.from, To: label, Msg: req}, func() error {
+		err := n.op.HandleDeploy(ctx, req, n.sink)
+		// the node's position changes when the deployment has taken effect, not when the call arrives: an event of the
+		// previous assembly that the operator still finishes before HandleDeploy gets its lock belongs to the old position
 		for i, id := range req.Operators {
 			if id.Id == n.id {
 				n.pos.Store(int32(i))
 				n.of.Store(int32(len(req.Operators)))
 			}
 		}
-		err := n.op.HandleDeploy(ctx, req, n.sink)
 		o.g.c.observe(Obs{Kind: "op.deployed", Gen: o.g.n, Node: label, OpCkpts: cks, Text: errText(err)})
 		return err
 	})
